@@ -146,7 +146,7 @@ def akai_round(rep: Report, ctx, rng, cases, tag):
                 rep.findings.append(Finding("akai-sample-wrong-loop-count", dict(detail, want=exp["#loops"], got=nl)))
             rep.feat("akai_samples")
             rep.feat("akai_active_loops", int(exp["#loops"]))
-            want_head = f"{f.name}  {'S3000 Sample' if f.s3000 else 'S1000 Sample'}"
+            want_head = f"{f.name}    {'S3000 Sample' if f.s3000 else 'S1000 Sample'}"
         else:
             exp = f.expected()
             exp["file_name"] = f.name
@@ -165,7 +165,7 @@ def akai_round(rep: Report, ctx, rng, cases, tag):
             rep.feat("akai_program_layout_" + ("standard" if f.addrs is None else "sequential" if not f.linked else "custom-addresses"))
             if trunc:
                 rep.feat("akai_program_listing_capped")
-            want_head = f"{f.name}  {'S3000 Program' if f.s3000 else 'S1000 Program'}"
+            want_head = f"{f.name}    {'S3000 Program' if f.s3000 else 'S1000 Program'}"
         if head is not None and head.rstrip() != want_head:
             rep.findings.append(Finding(f"akai-{f.kind}-wrong-heading", dict(detail, want=want_head, got=head)))
 
@@ -186,6 +186,8 @@ def roland_expected(s: GR.Sample) -> dict:
 
 def roland_round(rep: Report, ctx, rng, cases, tag):
     disc = GR.random_disc(rng)
+    while not GR.expected_export(disc):
+        disc = GR.random_disc(rng)
     for s in disc.samples.values():
         # ls does not read audio: give every loop point its own value, independent of the data length
         s.start, s.sus_start, s.sus_end, s.rel_start, s.rel_end = (rng.randrange(1 << 24) for _ in range(5))
